@@ -30,7 +30,7 @@ def expr(e, env):
     if isinstance(e, ast.Call):
         d = dotted(e.func)
         f = ("fn", d) if d else E(e.func)
-        if isinstance(e.func, ast.Attribute) and not (d and d.split(".")[0] in ("self", "math", "hmac", "hashlib", "functools", "struct", "os")):
+        if isinstance(e.func, ast.Attribute) and not (d and d.split(".")[0] in ("self", "math", "hmac", "hashlib", "functools", "struct", "os", "itertools", "operator", "int", "bytes", "str", "dict", "pickle", "json")):
             # method call on a value
             f = ("method", E(e.func.value), e.func.attr)
         if isinstance(e.func, ast.Name) and e.func.id in env:
@@ -51,6 +51,14 @@ def expr(e, env):
         return ("bool", type(e.op).__name__, tuple(E(v) for v in e.values))
     if isinstance(e, ast.ListComp):
         return ("comp", ast.unparse(e))
+    if isinstance(e, ast.Yield):
+        return ("yield", E(e.value) if e.value is not None else ("const", None))
+    if isinstance(e, ast.IfExp):
+        return ("ifexp", E(e.test), E(e.body), E(e.orelse))
+    if isinstance(e, ast.Starred):
+        return ("star", E(e.value))
+    if isinstance(e, ast.Await):
+        return ("await", E(e.value))
     return ("other", ast.unparse(e))
 
 
@@ -284,3 +292,29 @@ def match_all(equations, roles, candidates, fixed=None):
         if ok:
             return assign, b
     return None
+
+
+def P(src, **bind):
+    """Pattern from Python source: names starting with '_' are pattern variables, names given in `bind` are replaced by
+    the given terms.   P("b''.join(_CH)")  P("x[_I:_I + n]", x=("var", "lst"), n=("var", "cnt"))"""
+    import ast as _ast
+    t = canon(expr(_ast.parse(src, mode="eval").body, {}))
+
+    def conv(x):
+        if not isinstance(x, tuple) or not x:
+            return x
+        if x[0] == "var" and isinstance(x[1], str):
+            if x[1] in bind:
+                return bind[x[1]]
+            if x[1].startswith("_") and len(x[1]) > 1:
+                return ("mv", x[1][1:])
+        if x[0] == "fn" and isinstance(x[1], str) and x[1] in bind and bind[x[1]][0] == "var":
+            return ("fn", bind[x[1]][1])
+        return tuple(conv(y) if isinstance(y, tuple) else y for y in x)
+    return conv(t)
+
+
+def match(pat, t, b=None):
+    """unify returning the binding (or None)."""
+    b = dict(b or {})
+    return b if unify(pat, t, b) else None
